@@ -21,9 +21,9 @@ ASSUMPTIONS = [
     "membership of a yielded molecule is decided by canonical SMILES against the reference model's outcome set of each component (components are distinguishable by construction)",
     "the exact system mass comes from the reference MixtureModel (C12)",
 ]
-BOUNDS = {"quick": "6 systems of 1-4 components, system mass 2-5 x heaviest member, <= 4000 executions each", "thorough": "12 systems, <= 60000 executions each"}
+BOUNDS = {"quick": "6 systems of 1-4 components, system mass 2-5 x heaviest member, <= 4000 executions each", "thorough": "14 systems, <= 20000 executions each (complete below the cap up to the reported deviation bound)"}
 CASE_TIMEOUT = {"quick": 400, "thorough": 3000}
-MAX_EXEC = {"quick": 4000, "thorough": 60000}
+MAX_EXEC = {"quick": 4000, "thorough": 20000}
 
 T, S = R.tok, R.sto
 
